@@ -5,7 +5,7 @@
      PrevAlh_k = Alh_{k-1}            (sha256 of the empty string for k = 1: `committedAlh := sha256.Sum256(nil)`
                                       when ImmuStore opens an empty store)
      BlTxID_k  = b_k  for ANY non-decreasing b_k < k   (the store as it stands always has b_k = k-1;
-                                      headers whose linking lags by more than one are admitted)
+                                      headers whose linking lags by more than one are allowed)
      BlRoot_k  = root of the append-only hash tree over the payloads Alh_1 .. Alh_{b_k}
                  (aht.Append(alh[:]): the payload is the raw 32-byte Alh; 32 zero bytes when b_k = 0)
      Eh_k, Ts_k, Version_k in {0,1}, Metadata_k, NEntries_k arbitrary within the field ranges.
